@@ -95,6 +95,10 @@ def sweep_cases(pid, tier, rng):
                         cfg = gen_desc.gen_mesh(rng, algo, "axi", m=m, n=n, sides=sides, partial_local=False)
                         if cfg:
                             out.append((f"mesh-sweep:{algo}:{m}x{n}:{mask}", cfg))
+            for (m, n) in ([(11, 2), (2, 11), (12, 3), (3, 12), (11, 11)] if big else [(11, 2), (2, 11)]):
+                cfg = gen_desc.gen_mesh(rng, algo, "axi", m=m, n=n, sides=[], partial_local=False)
+                if cfg:
+                    out.append((f"mesh-sweep:{algo}:{m}x{n}", cfg))
             trees = [[1], [1, 2], [1, 3], [1, 2, 2], [1, 3, 2], [1, 2, 3], [1, 3, 3]] if big else [[1, 2], [1, 3, 2]]
             for t in trees:
                 cfg = gen_desc.gen_tree(rng, algo, "axi", tree=t)
